@@ -370,3 +370,9 @@ brk('C18', 'document.py', "                output_svg.write(repr(self))", "     
 ben('C18', 'document.py', "        return parseString(repr(self)).toprettyxml(**kwargs)",
     "        import re\n        return parseString(re.sub(r'>\\s+<', '><', repr(self))).toprettyxml(**kwargs)",
     'pretty() drops white space between tags only (cannot match inside an attribute value: < is escaped there)')
+brk('C10', P, "    if origin is None:\n        if isinstance(curve, Arc):\n            origin = curve.center\n        else:\n            origin = curve.point(0.5)\n\n    if isinstance(curve, Path):\n        transformation = lambda seg: rotate(seg, degs, origin=origin)\n        return transform_segments_together(curve, transformation)\n    elif is_bezier_segment(curve):",
+    "    if isinstance(curve, Path):\n        transformation = lambda seg: rotate(seg, degs, origin=origin)\n        return transform_segments_together(curve, transformation)\n\n    if origin is None:\n        if isinstance(curve, Arc):\n            origin = curve.center\n        else:\n            origin = curve.point(0.5)\n\n    if is_bezier_segment(curve):",
+    'rotate(Path) without origin: the Path branch runs before the default origin is filled in')
+ben('C10', P, "    if origin is None:\n        if isinstance(curve, Arc):\n            origin = curve.center\n        else:\n            origin = curve.point(0.5)\n\n    if isinstance(curve, Path):",
+    "    if origin is None:\n        origin = curve.center if isinstance(curve, Arc) else curve.point(0.5)\n\n    if isinstance(curve, Path):",
+    'default origin of rotate() as a conditional expression')
